@@ -1397,6 +1397,15 @@ func c15Run(cfg *config) error {
 		// (3) one very long text
 		long := strings.Repeat("long word ", 60)
 		cases = append(cases, c15GenCase(r, id, "probe", &long, nil, nil))
+		id++
+		// (4) one very wide node: 520 children, each with points of its own (a listing of that many nodes in one answer)
+		wide := c15GenCase(r, id, "probe", nil, nil, nil)
+		wide.Kind = "tree-wide"
+		for k := 0; k < 520; k++ {
+			wide.Nodes = append(wide.Nodes, c15NodeSpec{ID: fmt.Sprintf("w%d-%d", id, k), Type: "variable", Parent: wide.Top,
+				Pts: []sPoint{{Type: "description", Text: fmt.Sprintf("child %d", k)}, {Type: "value", VBits: math.Float64bits(float64(k))}}, EPts: []sPoint{}})
+		}
+		cases = append(cases, wide)
 	}
 	results := c15RunAll(cases, 6)
 	for i, c := range results {
